@@ -174,3 +174,252 @@ Example C08_Frag_ex_dec : frag_from_slice [6; 170; 0; 15; 0; 0; 0; 1; 7] =
   Ok ({| fr_next_header := 6; fr_fragment_offset := 1; fr_more_fragments := true; fr_identification := 1 |}, [7]).
 Proof. vm_compute. reflexivity. Qed.
 End FRAG.
+
+(* ---- link/net types (extend-c08a) ---- *)
+(* statements and Examples live in Roundtrip/PropsLinkNet.v; re-stated here (by
+   `exact`) because this is the file whose `Print Assumptions` the driver parses *)
+From EP Require Export Roundtrip.PropsLinkNet.
+Module LINKNET.
+Import Roundtrip.Macsec.
+Theorem C08_Macsec_ser_agree : forall h out,
+  exists e, mac_to_bytes h = Some e /\ mac_write out h = Some (out ++ e) /\ len e = mac_header_len h.
+Proof. exact MACSEC.C08_Macsec_ser_agree. Qed.
+Print Assumptions C08_Macsec_ser_agree.
+Theorem C08_Macsec_dec_enc : forall h rest, wf_mac h = true ->
+  exists e, mac_to_bytes h = Some e /\ len e = mac_header_len h
+    /\ mac_from_slice (e ++ rest) = Ok h /\ drop (mac_header_len h) (e ++ rest) = rest
+    /\ mac_read (e ++ rest) = Ok (h, rest).
+Proof. exact MACSEC.C08_Macsec_dec_enc. Qed.
+Print Assumptions C08_Macsec_dec_enc.
+Theorem C08_Macsec_excluded_rejected : forall h rest, mac_in_range h = true -> wf_mac h = false ->
+  exists e, mac_to_bytes h = Some e /\ mac_from_slice (e ++ rest) = Err (EContent 1)
+            /\ mac_read (e ++ rest) = Err (EContent 1).
+Proof. exact MACSEC.C08_Macsec_excluded_rejected. Qed.
+Print Assumptions C08_Macsec_excluded_rejected.
+Theorem C08_Macsec_enc_dec : forall bs h, bytes_ok bs -> mac_from_slice bs = Ok h ->
+  wf_mac h = true /\ mac_header_len h <= len bs
+  /\ exists e, mac_to_bytes h = Some e
+       /\ agree (mac_keep_mask (mac_header_len h)) e (take (mac_header_len h) bs)
+       /\ mac_from_slice (e ++ drop (mac_header_len h) bs) = Ok h.
+Proof. exact MACSEC.C08_Macsec_enc_dec. Qed.
+Print Assumptions C08_Macsec_enc_dec.
+Theorem C08_Macsec_spec : forall h, wf_mac h = true ->
+  mac_to_bytes h = Some (SpecLinkNet.macsec_layout (mac_endstation_id h) (mac_sci_some (mac_sci h)) (mac_scb h)
+    (mac_encrypted (mac_ptype h)) (mac_userdata_changed (mac_ptype h)) (mac_an h) (mac_short_len h)
+    (mac_packet_nr h) (mac_sci h) (MacsecProofs.mac_et_opt (mac_ptype h))).
+Proof. exact MACSEC.C08_Macsec_spec. Qed.
+Print Assumptions C08_Macsec_spec.
+
+Import Roundtrip.Auth Roundtrip.AuthProofs.
+Theorem C08_Auth_ser_agree : forall h out, wf_ah h = true ->
+  exists e, ah_to_bytes h = Some e /\ ah_write out h = Some (out ++ e) /\ len e = ah_header_len h.
+Proof. exact AUTH.C08_Auth_ser_agree. Qed.
+Print Assumptions C08_Auth_ser_agree.
+Theorem C08_Auth_dec_enc : forall h rest, wf_ah h = true ->
+  exists e, ah_to_bytes h = Some e /\ ah_from_slice (e ++ rest) = Ok (ah_norm h, rest)
+            /\ ah_read (e ++ rest) = Ok (ah_norm h, rest) /\ ah_eqb (ah_norm h) h = true.
+Proof. exact AUTH.C08_Auth_dec_enc. Qed.
+Print Assumptions C08_Auth_dec_enc.
+Theorem C08_Auth_enc_dec : forall bs h rest, bytes_ok bs -> ah_from_slice bs = Ok (h, rest) ->
+  wf_ah h = true /\ ah_norm h = h /\
+  exists e, ah_to_bytes h = Some e /\ bs = take (ah_header_len h) bs ++ rest
+            /\ agree (ah_keep_mask (ah_header_len h)) e (take (ah_header_len h) bs)
+            /\ ah_from_slice e = Ok (h, []).
+Proof. exact AUTH.C08_Auth_enc_dec. Qed.
+Print Assumptions C08_Auth_enc_dec.
+Theorem C08_Auth_spec : forall h, wf_ah h = true ->
+  ah_to_bytes h = Some (SpecLinkNet.ah_layout (ah_next_header h) (ah_spi h) (ah_sequence_number h) (ah_icv h)).
+Proof. exact AUTH.C08_Auth_spec. Qed.
+Print Assumptions C08_Auth_spec.
+
+Import Roundtrip.RawExt Roundtrip.RawExtProofs.
+Theorem C08_RawExt_ser_agree : forall h out, wf_rx h = true ->
+  exists e, rx_to_bytes h = Some e /\ rx_write out h = Some (out ++ e) /\ len e = rx_header_len h.
+Proof. exact RAWEXT.C08_RawExt_ser_agree. Qed.
+Print Assumptions C08_RawExt_ser_agree.
+Theorem C08_RawExt_dec_enc : forall h rest, wf_rx h = true ->
+  exists e, rx_to_bytes h = Some e /\ rx_from_slice (e ++ rest) = Ok (rx_norm h, rest)
+            /\ rx_read (e ++ rest) = Ok (rx_norm h, rest) /\ rx_eqb (rx_norm h) h = true.
+Proof. exact RAWEXT.C08_RawExt_dec_enc. Qed.
+Print Assumptions C08_RawExt_dec_enc.
+Theorem C08_RawExt_enc_dec : forall bs h rest, bytes_ok bs -> rx_from_slice bs = Ok (h, rest) ->
+  wf_rx h = true /\ rx_norm h = h /\
+  exists e, rx_to_bytes h = Some e /\ bs = e ++ rest /\ len e = rx_header_len h
+            /\ rx_from_slice e = Ok (h, []).
+Proof. exact RAWEXT.C08_RawExt_enc_dec. Qed.
+Print Assumptions C08_RawExt_enc_dec.
+Theorem C08_RawExt_spec : forall h, wf_rx h = true ->
+  rx_to_bytes h = Some (SpecLinkNet.rawext_layout (rx_next_header h) (rx_pl h)).
+Proof. exact RAWEXT.C08_RawExt_spec. Qed.
+Print Assumptions C08_RawExt_spec.
+
+Import Roundtrip.Ipv6 Roundtrip.Ipv6Proofs.
+Theorem C08_Ipv6_ser_agree : forall h out, wf_ip6 h = true ->
+  ip6_write out h = out ++ ip6_to_bytes h /\ len (ip6_to_bytes h) = ip6_header_len h.
+Proof. exact IPV6.C08_Ipv6_ser_agree. Qed.
+Print Assumptions C08_Ipv6_ser_agree.
+Theorem C08_Ipv6_dec_enc : forall h rest, wf_ip6 h = true ->
+  ip6_from_slice (ip6_to_bytes h ++ rest) = Ok (h, rest) /\ ip6_read (ip6_to_bytes h ++ rest) = Ok (h, rest).
+Proof. exact IPV6.C08_Ipv6_dec_enc. Qed.
+Print Assumptions C08_Ipv6_dec_enc.
+Theorem C08_Ipv6_enc_dec : forall bs h rest, bytes_ok bs -> ip6_from_slice bs = Ok (h, rest) ->
+  wf_ip6 h = true /\ bs = ip6_to_bytes h ++ rest /\ len (ip6_to_bytes h) = 40
+  /\ ip6_from_slice (ip6_to_bytes h) = Ok (h, []).
+Proof. exact IPV6.C08_Ipv6_enc_dec. Qed.
+Print Assumptions C08_Ipv6_enc_dec.
+Theorem C08_Ipv6_spec : forall h, wf_ip6 h = true ->
+  ip6_to_bytes h = SpecLinkNet.ipv6_layout (i6_traffic_class h) (i6_flow_label h) (i6_payload_length h)
+                     (i6_next_header h) (i6_hop_limit h) (i6_source h) (i6_destination h).
+Proof. exact IPV6.C08_Ipv6_spec. Qed.
+Print Assumptions C08_Ipv6_spec.
+(*c08a-more*)
+End LINKNET.
+(* ---- end extend-c08a ---- *)
+
+(* ---- transport/control types (extend-c08b) ---- *)
+(* statements, comments and Examples live in Roundtrip/PropsTransport.v; re-stated here (by
+   `exact`) because this is the file whose `Print Assumptions` the driver parses *)
+From EP Require Export Roundtrip.PropsTransport.
+From EP Require CtlMsg.Spec Roundtrip.Common Roundtrip.Grec Roundtrip.GrecProofs Roundtrip.Icmp4 Roundtrip.Icmp4Proofs Roundtrip.Icmp6 Roundtrip.Icmp6Proofs Roundtrip.Igmp Roundtrip.IgmpProofs Roundtrip.Prefix Roundtrip.PrefixProofs Roundtrip.Udp Roundtrip.UdpProofs.
+Module TR_UDP.
+Import Roundtrip.Udp Roundtrip.UdpProofs.
+Theorem C08_Udp_ser_agree : forall h out,
+  udp_write out h = out ++ udp_to_bytes h /\ len (udp_to_bytes h) = udp_header_len h.
+Proof. exact UDP.C08_Udp_ser_agree. Qed.
+Print Assumptions C08_Udp_ser_agree.
+Theorem C08_Udp_dec_enc : forall h rest, wf_udp h = true ->
+  udp_from_slice (udp_to_bytes h ++ rest) = Ok (h, rest) /\ udp_read (udp_to_bytes h ++ rest) = Ok (h, rest).
+Proof. exact UDP.C08_Udp_dec_enc. Qed.
+Print Assumptions C08_Udp_dec_enc.
+Theorem C08_Udp_enc_dec : forall bs h rest, bytes_ok bs -> udp_from_slice bs = Ok (h, rest) ->
+  wf_udp h = true /\ bs = take 8 bs ++ rest
+  /\ udp_to_bytes h = take 8 bs
+  /\ agree udp_keep_mask (udp_to_bytes h) (take 8 bs)
+  /\ udp_from_slice (udp_to_bytes h) = Ok (h, [])
+  /\ udp_read bs = Ok (h, rest).
+Proof. exact UDP.C08_Udp_enc_dec. Qed.
+Print Assumptions C08_Udp_enc_dec.
+Theorem C08_Udp_spec : forall h, wf_udp h = true ->
+  udp_to_bytes h = udp_layout (udp_source_port h) (udp_destination_port h) (udp_length h) (udp_checksum h).
+Proof. exact UDP.C08_Udp_spec. Qed.
+Print Assumptions C08_Udp_spec.
+End TR_UDP.
+Module TR_ICMP4.
+Import CtlMsg.Spec Roundtrip.Icmp4 Roundtrip.Icmp4Proofs.
+Import Roundtrip.Common.
+Theorem C08_Icmp4_ser_agree : forall h out,
+  exists e, icmp4_to_bytes h = Some e /\ icmp4_write out h = Some (out ++ e) /\ len e = icmp4_header_len h.
+Proof. exact ICMP4.C08_Icmp4_ser_agree. Qed.
+Print Assumptions C08_Icmp4_ser_agree.
+Theorem C08_Icmp4_dec_enc : forall h, wf_icmp4 h = true ->
+  exists e, icmp4_to_bytes h = Some e /\ len e = icmp4_header_len h /\ bytes_ok e /\
+    (forall rest, icmp4_read (e ++ rest) = Ok (h, rest)) /\
+    (forall rest, icmp4_header_len h = 8 \/ rest = [] -> icmp4_from_slice (e ++ rest) = Ok (h, rest)).
+Proof. exact ICMP4.C08_Icmp4_dec_enc. Qed.
+Print Assumptions C08_Icmp4_dec_enc.
+Theorem C08_Icmp4_enc_dec : forall bs h rest, bytes_ok bs -> icmp4_from_slice bs = Ok (h, rest) ->
+  wf_icmp4 h = true /\ bs = take (icmp4_header_len h) bs ++ rest /\
+  exists e t c, icmp4_to_bytes h = Some e /\ rd bs 0 = Some t /\ rd bs 1 = Some c /\
+    agree (icmp4_keep_mask t c (icmp4_header_len h)) e (take (icmp4_header_len h) bs) /\
+    icmp4_from_slice e = Ok (h, []) /\ icmp4_read bs = Ok (h, rest).
+Proof. exact ICMP4.C08_Icmp4_enc_dec. Qed.
+Print Assumptions C08_Icmp4_enc_dec.
+Theorem C08_Icmp4_spec : forall h, wf_icmp4 h = true ->
+  exists e, icmp4_to_bytes h = Some e /\
+    icmp4 e = CtlMsg.Spec.Ok (icmp4_type h, icmp4_header_len h, []).
+Proof. exact ICMP4.C08_Icmp4_spec. Qed.
+Print Assumptions C08_Icmp4_spec.
+End TR_ICMP4.
+Module TR_ICMP6.
+Import CtlMsg.Spec Roundtrip.Icmp6 Roundtrip.Icmp6Proofs.
+Import Roundtrip.Common.
+Theorem C08_Icmp6_ser_agree : forall h out,
+  exists e, icmp6_to_bytes h = Some e /\ icmp6_write out h = Some (out ++ e) /\ len e = icmp6_header_len h.
+Proof. exact ICMP6.C08_Icmp6_ser_agree. Qed.
+Print Assumptions C08_Icmp6_ser_agree.
+Theorem C08_Icmp6_dec_enc : forall h, wf_icmp6 h = true ->
+  exists e, icmp6_to_bytes h = Some e /\ len e = icmp6_header_len h /\ bytes_ok e /\
+    (forall rest, icmp6_read (e ++ rest) = Ok (h, rest)) /\
+    (forall rest, 8 + len rest <= 4294967295 -> icmp6_from_slice (e ++ rest) = Ok (h, rest)).
+Proof. exact ICMP6.C08_Icmp6_dec_enc. Qed.
+Print Assumptions C08_Icmp6_dec_enc.
+Theorem C08_Icmp6_enc_dec : forall bs h rest, bytes_ok bs -> icmp6_from_slice bs = Ok (h, rest) ->
+  wf_icmp6 h = true /\ bs = take (icmp6_header_len h) bs ++ rest /\
+  exists e t c, icmp6_to_bytes h = Some e /\ rd bs 0 = Some t /\ rd bs 1 = Some c /\
+    agree (icmp6_keep_mask t c) e (take (icmp6_header_len h) bs) /\
+    icmp6_from_slice e = Ok (h, []) /\ icmp6_read bs = Ok (h, rest).
+Proof. exact ICMP6.C08_Icmp6_enc_dec. Qed.
+Print Assumptions C08_Icmp6_enc_dec.
+Theorem C08_Icmp6_spec : forall h, wf_icmp6 h = true ->
+  exists e, icmp6_to_bytes h = Some e /\ icmp6 e = CtlMsg.Spec.Ok (icmp6_type h, []).
+Proof. exact ICMP6.C08_Icmp6_spec. Qed.
+Print Assumptions C08_Icmp6_spec.
+End TR_ICMP6.
+Module TR_IGMP.
+Import CtlMsg.Spec Roundtrip.Igmp Roundtrip.IgmpProofs.
+Import Roundtrip.Common.
+Theorem C08_Igmp_ser_agree : forall h,
+  exists e, igmp_to_bytes h = Some e /\ len e = igmp_header_len h.
+Proof. exact IGMP.C08_Igmp_ser_agree. Qed.
+Print Assumptions C08_Igmp_ser_agree.
+Theorem C08_Igmp_dec_enc : forall h, wf_igmp h = true ->
+  exists e, igmp_to_bytes h = Some e /\ len e = igmp_header_len h /\ bytes_ok e /\
+    (forall rest, igmp_is_query8 (igmp_type h) = false \/ rest = [] -> igmp_from_slice (e ++ rest) = Ok (h, rest)).
+Proof. exact IGMP.C08_Igmp_dec_enc. Qed.
+Print Assumptions C08_Igmp_dec_enc.
+Theorem C08_Igmp_enc_dec : forall bs h rest, bytes_ok bs -> igmp_from_slice bs = Ok (h, rest) ->
+  wf_igmp h = true /\ bs = take (igmp_header_len h) bs ++ rest /\
+  exists e t, igmp_to_bytes h = Some e /\ rd bs 0 = Some t /\
+    agree (igmp_keep_mask t (igmp_header_len h)) e (take (igmp_header_len h) bs) /\
+    igmp_from_slice e = Ok (h, []).
+Proof. exact IGMP.C08_Igmp_enc_dec. Qed.
+Print Assumptions C08_Igmp_enc_dec.
+Theorem C08_Igmp_spec : forall h, wf_igmp h = true ->
+  exists e, igmp_to_bytes h = Some e /\
+    igmp e = CtlMsg.Spec.Ok (igmp_type h, igmp_checksum h, igmp_header_len h, []).
+Proof. exact IGMP.C08_Igmp_spec. Qed.
+Print Assumptions C08_Igmp_spec.
+End TR_IGMP.
+Module TR_GREC.
+Import CtlMsg.Spec Roundtrip.Grec Roundtrip.GrecProofs.
+Import Roundtrip.Common.
+Theorem C08_Grec_ser_agree : forall g, len (grec_to_bytes g) = grec_len.
+Proof. exact GREC.C08_Grec_ser_agree. Qed.
+Print Assumptions C08_Grec_ser_agree.
+Theorem C08_Grec_dec_enc : forall g rest, wf_grec g = true ->
+  grec_from_slice (grec_to_bytes g ++ rest) = Ok (g, rest).
+Proof. exact GREC.C08_Grec_dec_enc. Qed.
+Print Assumptions C08_Grec_dec_enc.
+Theorem C08_Grec_enc_dec : forall bs g rest, bytes_ok bs -> grec_from_slice bs = Ok (g, rest) ->
+  wf_grec g = true /\ bs = take 8 bs ++ rest /\ grec_to_bytes g = take 8 bs
+  /\ agree grec_keep_mask (grec_to_bytes g) (take 8 bs)
+  /\ grec_from_slice (grec_to_bytes g) = Ok (g, []).
+Proof. exact GREC.C08_Grec_enc_dec. Qed.
+Print Assumptions C08_Grec_enc_dec.
+Theorem C08_Grec_spec : forall g, wf_grec g = true -> group_record (grec_to_bytes g) = CtlMsg.Spec.Ok (g, []).
+Proof. exact GREC.C08_Grec_spec. Qed.
+Print Assumptions C08_Grec_spec.
+End TR_GREC.
+Module TR_PREFIX.
+Import Roundtrip.Prefix Roundtrip.PrefixProofs.
+Theorem C08_Prefix_ser_agree : forall h, wf_pi h = true -> exists e, pi_to_bytes h = Some e /\ len e = pi_len.
+Proof. exact PREFIX.C08_Prefix_ser_agree. Qed.
+Print Assumptions C08_Prefix_ser_agree.
+Theorem C08_Prefix_dec_enc : forall h, wf_pi h = true ->
+  exists e, pi_to_bytes h = Some e /\ len e = pi_len /\ bytes_ok e /\
+    pi_from_slice e = Ok h /\ pi_from_bytes e = Ok h /\
+    (forall rest, rest <> [] -> pi_from_slice (e ++ rest) = Err ELen).
+Proof. exact PREFIX.C08_Prefix_dec_enc. Qed.
+Print Assumptions C08_Prefix_dec_enc.
+Theorem C08_Prefix_enc_dec : forall bs h, bytes_ok bs -> pi_from_slice bs = Ok h ->
+  wf_pi h = true /\ len bs = pi_len /\
+  exists e, pi_to_bytes h = Some e /\ agree pi_keep_mask e bs /\ pi_from_slice e = Ok h /\ pi_from_bytes bs = Ok h.
+Proof. exact PREFIX.C08_Prefix_enc_dec. Qed.
+Print Assumptions C08_Prefix_enc_dec.
+Theorem C08_Prefix_spec : forall h, wf_pi h = true ->
+  pi_to_bytes h = Some (pi_layout (pi_prefix_length h) (pi_on_link h) (pi_autonomous h)
+                          (pi_valid_lifetime h) (pi_preferred_lifetime h) (pi_prefix h)).
+Proof. exact PREFIX.C08_Prefix_spec. Qed.
+Print Assumptions C08_Prefix_spec.
+End TR_PREFIX.
+(* ---- end extend-c08b ---- *)
